@@ -126,6 +126,13 @@ def run_case(case, step_hook=None):
                         model.items["class"] = [("plain", " ".join(toks))]
                     else:
                         model.pop("class")
+        elif o == "continue_on_copy":
+            # everything that follows happens to a copy of the element (a copy is an element like any other)
+            import copy as _copy
+
+            tag = _copy.copy(tag) if op.get("how") == "copy" else tag.tagify()
+            if type(tag.attrs) is not type(ht.Tag("x").attrs):
+                raise AssertionError("the attribute map of a copied element is a %s" % type(tag.attrs).__name__)
         elif o == "add_style":
             r = tag.add_style(_bv(op["v"]), prepend=op.get("prepend", False))
             assert r is tag
